@@ -155,7 +155,7 @@ def c19_table(pe: bool, pc: bool, pu: bool, pl: bool, with_ns: bool, e0: int, e1
 
 def c19_saveto(kind: int, n: int, has_entities: bool, s0: int, s1: int, s2: int) -> bool:
     """
-    vpre: 33 <= s0 <= 126 and s0 != 36 and 33 <= s1 <= 126 and s1 != 36 and 33 <= s2 <= 126 and s2 != 36
+    vpre: 33 <= s0 <= 126 and s0 != 36 and 95 <= s1 <= 122 and 33 <= s2 <= 126 and s2 != 36
     vpost: _ == True
     """
     from spec.xmlnames import is_ncname
@@ -243,7 +243,7 @@ specialise(
     timeout=400,
     kernel=K,
     shims=("S1", "S2", "S3", "S4"),
-    symbolic="save_to cell of 2 symbolic characters; entities sheet present (boolean)",
+    symbolic="save_to cell of 2 symbolic characters (first over U+0021-U+007E minus '$', second over U+005F-U+007A so that the reserved '__' prefix is reachable); entities sheet present (boolean)",
     bounds="row kind fixed per instance: question / question in group / question in repeat / group row / repeat row / question in group inside repeat / question after a closed repeat inside a group; property name length 2 over U+0021-U+007E minus '$'",
     weight=80,
 )
